@@ -34,7 +34,7 @@ using namespace std::chrono;
 namespace {
 std::string g_oracle;
 
-struct SpanOut { std::string name, trace_id, span_id, parent_id, attr_k; bool has_k = false; int events = 0; };
+struct SpanOut { std::string name, trace_id, span_id, parent_id, attr_k; bool has_k = false; int events = 0; int status = 0; };
 struct LogOut { std::string body, trace_id, span_id; };
 struct Ev { int thread, op, ret; };  // op index, ret: 0 call, 1 return
 struct Shared {
@@ -66,6 +66,7 @@ class SpanExporter final : public sdkt::SpanExporter {
       auto it = d->GetAttributes().find("k");
       if (it != d->GetAttributes().end()) { o.has_k = true; o.attr_k = str_of(it->second); }
       o.events = (int)d->GetEvents().size();
+      o.status = (int)d->GetStatus();
       g->spans.push_back(o);
       vfs::note("export-span", g->spans.size());
     }
@@ -101,9 +102,11 @@ class LogExporter final : public sdkl::LogRecordExporter {
 void run_c04(vf::Ctx &c) {
   // variant bit0: T2 ends before it adds the event (late mutator on its own thread);
   // variant bit1: T1's first operation is UpdateName("renamed") instead of SetAttribute(k,1)
-  int variant4 = c.pick("variant", 4);
+  // variant bit2: T2's third operation is SetStatus(kError) instead of AddEvent
+  int variant4 = c.pick("variant", 8);
   int variant = variant4 & 1;
   bool rename = (variant4 & 2) != 0;
+  bool status_op = (variant4 & 4) != 0;
   {
     sdkt::TracerProvider provider(std::unique_ptr<sdkt::SpanProcessor>(new sdkt::SimpleSpanProcessor(std::unique_ptr<sdkt::SpanExporter>(new SpanExporter()))),
                                   opentelemetry::sdk::resource::Resource::GetEmpty());
@@ -118,7 +121,9 @@ void run_c04(vf::Ctx &c) {
     std::thread t2([&] {
       g->mark(2, 0); span->SetAttribute("k", "2"); g->mark(2, 1);
       if (variant == 1) { g->mark(4, 0); span->End(); g->mark(4, 1); }
-      g->mark(3, 0); span->AddEvent("e"); g->mark(3, 1);
+      g->mark(3, 0);
+      if (status_op) span->SetStatus(trace::StatusCode::kError, "failed"); else span->AddEvent("e");
+      g->mark(3, 1);
       if (variant == 0) { g->mark(4, 0); span->End(); g->mark(4, 1); }
     });
     t1.join();
@@ -146,21 +151,21 @@ void run_c04(vf::Ctx &c) {
     if (!ok) continue;
     bool has_k = false, ended = false;
     std::string k, name = "s";
-    int events = 0;
+    int events = 0, status = (int)trace::StatusCode::kUnset;
     for (int i = 0; i < 5 && !ended; ++i) {
       switch (perm[i]) {
         case 0: if (rename) name = "renamed"; else { has_k = true; k = "1"; } break;
         case 2: has_k = true; k = "2"; break;
-        case 3: events++; break;
+        case 3: if (status_op) status = (int)trace::StatusCode::kError; else events++; break;
         default: ended = true;
       }
     }
-    if (has_k == o.has_k && (!has_k || k == o.attr_k) && events == o.events && name == o.name) explained = true;
+    if (has_k == o.has_k && (!has_k || k == o.attr_k) && events == o.events && name == o.name && status == o.status) explained = true;
   } while (!explained && std::next_permutation(perm, perm + 5));
   if (!explained)
-    vfs::fail("C04:conc:not-linearizable", vf::sfmt("exported span has name=%s k=%s events=%d, which no order of the calls consistent with their call/return order explains",
-                                                    o.name.c_str(), o.has_k ? o.attr_k.c_str() : "(absent)", o.events));
-  c.outcome(vf::sfmt("%d name=%s k=%s e=%d", variant4, o.name.c_str(), o.has_k ? o.attr_k.c_str() : "-", o.events));
+    vfs::fail("C04:conc:not-linearizable", vf::sfmt("exported span has name=%s k=%s events=%d status=%d, which no order of the calls consistent with their call/return order explains",
+                                                    o.name.c_str(), o.has_k ? o.attr_k.c_str() : "(absent)", o.events, o.status));
+  c.outcome(vf::sfmt("%d name=%s k=%s e=%d st=%d", variant4, o.name.c_str(), o.has_k ? o.attr_k.c_str() : "-", o.events, o.status));
   c.sample(vf::sfmt("variant=%d exported name=%s k=%s events=%d", variant4, o.name.c_str(), o.has_k ? o.attr_k.c_str() : "(absent)", o.events));
 }
 
